@@ -175,6 +175,9 @@ fn enumerate_files(path: &PathBuf) -> Result<Vec<PathBuf>, Vec<Diagnostic>> {
                 Ok(entry) => Some(entry.path()),
                 Err(_) => None,
             })
+            // A directory stands for the files in it. A sub-directory is not a
+            // file (is_file follows symbolic links).
+            .filter(|path| path.is_file())
             .collect();
         return Ok(paths);
     }
